@@ -215,6 +215,26 @@ func TestC04Sys(t *testing.T) {
 		}
 	}
 
+	// aliasing: ONE metadata.MD object (value slices with spare capacity) handed to several Set* calls, then more
+	// values for the same key: the header's and the trailer's values must not share storage
+	for _, k := range c08Kinds {
+		for _, fail := range []bool{false, true} {
+			mk := func() metadata.MD {
+				vs := make([]string, 3, 4)
+				copy(vs, []string{"a", "b", "c"})
+				bs := make([]string, 1, 8)
+				bs[0] = "\x00\xff"
+				return metadata.MD{"shared": vs, "Shared-Bin": bs}
+			}
+			sh := mk()
+			scs = append(scs, c04Scenario{k: k, fail: fail, viaGrpc: true, ops: []c04Op{{"SetHeader", sh}, {"SetTrailer", sh},
+				{"SetHeader", metadata.MD{"shared": {"H"}, "Shared-Bin": {"h"}}}, {"SetTrailer", metadata.MD{"shared": {"T"}, "Shared-Bin": {"t"}}}}})
+			sh2 := mk()
+			scs = append(scs, c04Scenario{k: k, fail: fail, ops: []c04Op{{"SetTrailer", sh2}, {"SetHeader", sh2}, {"SetTrailer", sh2},
+				{"SetTrailer", metadata.MD{"shared": {"T"}}}, {"SetHeader", metadata.MD{"shared": {"H"}}}, {"SetHeader", sh2}}})
+		}
+	}
+
 	for si, sc := range scs {
 		if !anyWanted(idx, 5) {
 			idx += 5
@@ -238,7 +258,7 @@ func TestC04Sys(t *testing.T) {
 						err = grpc.SetHeader(ctx, o.md)
 					}
 					if err == nil {
-						accH = append(accH, o.md)
+						accH = append(accH, o.md.Copy())
 					}
 				case "SendHeader":
 					if ss != nil && !sc.viaGrpc {
@@ -247,7 +267,7 @@ func TestC04Sys(t *testing.T) {
 						err = grpc.SendHeader(ctx, o.md)
 					}
 					if err == nil {
-						accH = append(accH, o.md)
+						accH = append(accH, o.md.Copy())
 					}
 				case "SetTrailer":
 					if ss != nil && !sc.viaGrpc {
@@ -256,7 +276,7 @@ func TestC04Sys(t *testing.T) {
 						err = grpc.SetTrailer(ctx, o.md)
 					}
 					if err == nil {
-						accT = append(accT, o.md)
+						accT = append(accT, o.md.Copy())
 					}
 				case "SendMsg":
 					ss.SendMsg(bv([]byte("m")))
@@ -342,14 +362,22 @@ func TestC04Sys(t *testing.T) {
 					cs.SendMsg(bv([]byte("q")))
 				}
 				cs.CloseSend()
+				_ = cs.Trailer() // early calls (legal, nothing there yet) must not spoil the later ones
 				h, err := cs.Header()
-				gotH, gotHok = h, err == nil
+				_ = cs.Trailer()
 				for i := 0; i < 8; i++ {
 					var m wrapperspb.BytesValue
 					if cs.RecvMsg(&m) != nil {
 						break
 					}
+					_ = cs.Trailer() // between messages
+					cs.Header()
 				}
+				h2, err2 := cs.Header() // asked again at the end
+				if err == nil && err2 == nil && fmt.Sprint(h) != fmt.Sprint(h2) {
+					err = fmt.Errorf("Header() changed between calls")
+				}
+				gotH, gotHok = h2, err == nil && err2 == nil
 				gotT, gotTok = cs.Trailer(), true
 			}
 			if sc.k.stream {
